@@ -525,8 +525,25 @@ impl<'a> StoreWorld<'a> {
                 let was_open = self.open[*n];
                 match self.rs.store.open_replica(&ns.id()) {
                     Ok(mut r) => {
-                        let res = self.rt.block_on(r.insert_remote_entry(e.clone(), PEER, ContentStatus::Missing));
+                        // the sender's content status varies: the download decision must not depend on it
+                        let status = match (key.len() as u64 + *ts) % 3 {
+                            0 => ContentStatus::Missing,
+                            1 => ContentStatus::Incomplete,
+                            _ => ContentStatus::Complete,
+                        };
+                        let (ev_tx, ev_rx) = async_channel::unbounded();
+                        if self.focus == "C15" {
+                            r.verif_info_mut().subscribe(ev_tx);
+                        }
+                        let res = self.rt.block_on(r.insert_remote_entry(e.clone(), PEER, status));
                         drop(r);
+                        if self.focus == "C15" {
+                            // specification: the event's download flag is what the document's policy says for the key
+                            if let Ok(iroh_docs::sync::Event::RemoteInsert { should_download, .. }) = ev_rx.try_recv() {
+                                let pol = self.rs.store.get_download_policy(&ns.id())?;
+                                self.lines.push(Line::oracle(format!("spolicymatch {} {}", policy_tok(&pol), hex(key)), format!("{}", should_download as u8)));
+                            }
+                        }
                         if !was_open {
                             self.rs.store.close_replica(ns.id());
                         }
